@@ -7,11 +7,13 @@ import (
 	"errors"
 
 	"github.com/pion/interceptor"
+	"github.com/pion/interceptor/pkg/cc"
 	"github.com/pion/interceptor/pkg/flexfec"
 	"github.com/pion/interceptor/pkg/intervalpli"
 	"github.com/pion/interceptor/pkg/jitterbuffer"
 	"github.com/pion/interceptor/pkg/nack"
 	"github.com/pion/interceptor/pkg/packetdump"
+	"github.com/pion/interceptor/pkg/pacing"
 	"github.com/pion/interceptor/pkg/report"
 	"github.com/pion/interceptor/pkg/rfc8888"
 	"github.com/pion/interceptor/pkg/rtpfb"
@@ -81,6 +83,10 @@ func member(k int) interceptor.Interceptor {
 		f, err = flexfec.NewFecInterceptor()
 	case 14:
 		f, err = packetdump.NewSenderInterceptor()
+	case 16:
+		f = pacing.NewInterceptor()
+	case 17:
+		f, err = cc.NewInterceptor(nil) // default estimator: gcc.NewSendSideBWE with the leaky bucket pacer
 	default:
 		f, err = jitterbuffer.NewInterceptor()
 	}
